@@ -14,7 +14,8 @@ RULE = ("MSI digest ops: the repository's *.msi fixtures (functest/packages/dumm
         "both signature streams must give identical digests. Outside the theorems' hypotheses (exercising the panic characterisation and "
         "the witnesses): NameLength overridden to 0/1/2/3/5/40/64/66/100/130/131/132/200/65535, garbage after the terminator, identical "
         "32-slot name arrays with NameLength 30/32/34/64/66 (also among 22 siblings), 32-unit names, embedded NUL, a stream whose "
-        "MSI-decoded name is a signature name, a stream named __exmeta, a signature name below the root, a storage with a signature name. "
+        "MSI-decoded name is a signature name, a stream named __exmeta, a storage with a signature name (MsiToTar refuses these three since the "
+        "repair of Fmsi-tar), a signature name below the root (content on both paths since the repair). "
         "Non-trivial = distinct op on which relic produced digests or the predicted panic.")
 ASSUMPTIONS = ["MSI: archive/tar carries member names and contents unchanged (names without NUL); tar members compared only then",
                "MSI: SHA-256 stands for every crypto.Hash (the code paths do not depend on the hash; the theorems are for any H)",
@@ -138,10 +139,15 @@ def predicate(prop, op, il, cm, tag):
         if prop == "C05" and (a.get("plain") != b.get("plain") or a.get("ext") != b.get("ext") or a.get("pre") != b.get("pre")):
             return ("Relic.Props.C05.msi_digest_eq_spec", "plain=%s ext=%s pre=%s" % (b.get("plain"), b.get("ext"), b.get("pre")),
                     "relic's DigestMSI is not the hash of the specification's stream (tree satisfies the theorem's hypotheses)")
-    if prop == "C18" and t.get("safe") == "1" and _tar_comparable(cm) and not is_fail(a.get("plain", "")) and not is_fail(a.get("ext", "")):
+    # full strength since the repair of Fmsi-tar: whenever MsiToTar succeeds the two digests agree; it refuses exactly the
+    # trees with a reserved tar name in the root storage (tag safe=0)
+    if prop == "C18" and t.get("safe") == "0" and not is_fail(a.get("plain", "")) and a.get("members") != "err:tar-name":
+        return ("Relic.Props.C18.msiToTar_refuses", "members=err:tar-name",
+                "MsiToTar converts a tree with a reserved tar name in the root storage (its digest cannot agree with DigestMSI)")
+    if prop == "C18" and _tar_comparable(cm) and not is_fail(a.get("members", "")) and not is_fail(a.get("plain", "")) and not is_fail(a.get("ext", "")):
         if a.get("tarplain") != a.get("plain") or a.get("tarext") != a.get("ext"):
             return ("Relic.Props.C18.tar_equals_direct", "tarplain=%s tarext=%s" % (a.get("plain"), a.get("ext")),
-                    "DigestMsiTar(MsiToTar(f)) differs from DigestMSI(f) on a tree satisfying the hypothesis (tarSafe)")
+                    "DigestMsiTar(MsiToTar(f)) differs from DigestMSI(f) although MsiToTar succeeded")
     return None
 
 
